@@ -74,6 +74,7 @@ def main():
     # ---- 1. audit + build + assumptions
     bad = C.audit()
     ok_build, build_log = C.build_coq(getattr(mod, 'COQ_TARGETS', None))
+    gen_proc = C.gen_check_start(pid) if (ok_build and not args.replay) else None      # generated tie, runs alongside
     pa = C.props_assumptions(pid) if ok_build else dict(obligations=0, discharged=0, theorems=[], axioms=[], ok=False, log=build_log[-3000:])
     if ok_build and not pa['obligations']:
         pa['ok'] = False
@@ -167,6 +168,12 @@ def main():
             oracle_fail.append((len(cases) - 1, f['what']))
 
     anchor_cov.stop()
+    gen = C.gen_check_finish(pid, gen_proc)
+    if gen is not None and not gen['ok'] and proof_ok:
+        proof_ok = False
+        proof_problem = ('generated tie broken: the Gallina text regenerated from the current source of %s is no longer proved equal '
+                         'to the hand model (coq/gen/GenLinks.v): %s' % (', '.join(n for n, _ in gen['broken']),
+                                                                         '; '.join('%s: %s' % b for b in gen['broken'])[:1200]))
 
     # ---- 7. verdict
     seen_known = collections.OrderedDict()
@@ -238,7 +245,9 @@ def main():
                 obj = dict(property=pid, what=what, broken='correspondence:' + mod.CHECK_FN, case=cases[i],
                            impl_output=outs[i], model_output=model_out)
             elif not proof_ok:
-                obj = dict(property=pid, what=proof_problem, broken='theorems of Props/%s.v' % pid,
+                obj = dict(property=pid, what=proof_problem,
+                           broken=('link theorems gen_%s_eq of coq/gen/GenLinks.v' % '/'.join(n for n, _ in gen['broken'])
+                                   if (gen is not None and not gen['ok'] and pa.get('ok') and not bad) else 'theorems of Props/%s.v' % pid),
                            theorems=pa.get('theorems'))
             elif coq_errs:
                 obj = dict(property=pid, what='evaluating the model on the generated cases failed', broken='correspondence:' + mod.CHECK_FN, errors=coq_errs[:3])
@@ -282,7 +291,12 @@ def main():
         anchors_digest=digest_now, anchors_baseline=baseline, escalated=escalated,
         notes=notes + list(extra.get('notes', [])),
         anchored_line_coverage=anchor_cov.report(),
+        generated_tie=gen,
     )
+    if gen is not None:
+        # the link theorems of this property's translated functions are proof obligations of the run
+        cov['obligations'] += len(gen['targets'])
+        cov['discharged'] += len(gen['targets']) - len([n for n, _ in gen['broken'] if n in gen['targets']]) if gen['ok'] or gen['broken'] else 0
     for k, v in extra.items():
         if k not in ('failures', 'notes'):
             cov[k] = v
